@@ -16,8 +16,12 @@ NA = {
 "C16":"Level-slice sufficiency compares two pure authorizations; the slice is computed in-process, not fetched through a seam.",
 "C17":"The manifest loader trait is crate-private with only the in-memory slicer; from outside slice_entities is a pure function.",
 "C18":"Symbolic compilation on literal environments is pure term construction; the solver I/O is explicitly outside the property."}
-PENDING = {k:"claimed in DESIGN.md section 4 but its world is not implemented yet in this commit (under construction)" for k in ["C19","C20"]}
+PENDING = {k:"claimed in DESIGN.md section 4 but its world is not implemented yet in this commit (under construction)" for k in ["C20"]}
 CHECKS = {
+"C19": dict(world="frontends", cat="exploration", ref="DESIGN.md 4.5",
+  text="Seeded search over histories of front-end calls issued from 1-3 parked caller threads (the simulator decides which thread makes each call): stateless FFI authorization in every input shape, preparse/re-registration histories with invalid documents, stateful authorization against a per-thread model of the registration cache, FFI validate / format / convert / check-parse, and the real cedar CLI run as a subprocess over a simulated disk with file faults (absent, torn, bit-flipped, swapped, emptied, garbage). Every answer is compared with the Rust API fed the same documents (for stateful calls: with the stateless FFI call on the modelled registered documents).",
+  note="Trusted: the Rust API as reference implementation (the property is a refinement between two real implementations), the harness's independent assembly of policy sets / schemas / requests the documented way, the per-thread cache model. 'Currently registered' is read as per calling thread (documented thread-local). Error messages are not compared, only success/failure, decisions, id sets and converted values.",
+  tech="deterministic simulation: parked caller threads with a seeded scheduler over thread-local caches, registration histories with failing re-registrations, CLI subprocess over a fault-injected file store; API as differential reference"),
 "C08": dict(world="policyset", cat="exploration", ref="DESIGN.md 4.3",
   text="Seeded search over policy-set edit histories (add, add_template, link with exact/missing/extra/wrong-target bindings, unlink, remove_static, remove_template, merge with and without renaming where `other` comes from its own sub-history) over a small colliding id pool, about half of the operations designed to fail; after every step the set is compared with a name/role model at set level, authorization over the edited set with the model's table, and every new link with the static policy obtained by textual substitution on all probe requests (plus effect and annotations).",
   note="Trusted: the name/role model and conflict rule written from the documented contracts, the atom evaluator shared with C01, the getrandom interposition. 'Unchanged after a failed op' is judged at set level, not iteration order; merge may rename more than necessary.",
